@@ -22,7 +22,7 @@ var c09Chars = []string{"a", "é", " ", "$", `\`, "0", "n", "p", "{", "}", "\n\t
 
 var c09Types = []string{"", "ascii", "braille", "custom"}
 
-const c09Origins = 11
+const c09Origins = 16
 
 func terminatorOf(typ string) string {
 	switch typ {
@@ -76,6 +76,9 @@ func collapseLiteralNewlines(p string) string {
 
 // literalSrc prints one string part; a raw newline inside it stays raw.
 func quote(p string) string { return "\"" + p + "\"" }
+
+// q is an AutoVar command: its inline text argument then stands inside a condition.
+var c09Cmd = parser.CommandConfig{AutoVarCommands: map[string]parser.AutoVarCommand{"q": {VarName: "VAR_RESULT"}}}
 
 func runC09(tier string) int {
 	r := harness.NewRun("C09", "exploration", tier, budget(tier, 50*time.Second, 12*time.Minute))
@@ -185,10 +188,20 @@ func runC09(tier string) int {
 			src, label = "script S {\n\tmsgbox(ascii\"first arg\", "+lit+")\n}\n", "S_Text_1"
 		case 9: // before a typed inline text in the same command
 			src, label = "script S {\n\tmsgbox("+lit+", custom\"second arg\", X)\n}\n", "S_Text_0"
-		default: // after a typed inline text in the previous command and a typed text statement
+		case 10: // after a typed inline text in the previous command and a typed text statement
 			src, label = "text T0 {\n\tbraille\"first arg\"\n}\nscript S {\n\ta(custom\"first arg\")\n\tb("+lit+")\n}\n", "S_Text_1"
+		case 11: // argument of an AutoVar command that is the middle operand of an && chain
+			src, label = "script S {\n\tif (flag(A) && q("+lit+") && var(B) == 2) {\n\t\tx\n\t}\n}\n", "S_Text_0"
+		case 12: // middle operand, && then ||, loop condition
+			src, label = "script S {\n\twhile (flag(A) && q("+lit+") || flag(C)) {\n\t\tx\n\t}\n}\n", "S_Text_0"
+		case 13: // first operand with a comparison, || then &&
+			src, label = "script S {\n\tif (q("+lit+") == 1 || flag(A) && flag(B)) {\n\t\tx\n\t}\n}\n", "S_Text_0"
+		case 14: // AutoVar switch operand
+			src, label = "script S {\n\tswitch (q("+lit+")) {\n\t\tcase 1:\n\t\t\tx\n\t}\n}\n", "S_Text_0"
+		default: // negated last operand of a do...while condition, inside a group
+			src, label = "script S {\n\tdo {\n\t\tx\n\t} while (flag(A) || (flag(B) && !q("+lit+")))\n}\n", "S_Text_0"
 		}
-		res := comp.Compile(src, comp.Opts{FontPath: fpath, Switches: sw})
+		res := comp.Compile(src, comp.Opts{FontPath: fpath, Switches: sw, Cmd: c09Cmd})
 		r.Add("evaluations", 1)
 		if res.Panic != "" {
 			r.Report(harness.Violation{Sig: "C09:panic", Summary: "panic: " + firstLine(res.Panic) + fmt.Sprintf("\n  source: %q", src), Replay: map[string]interface{}{"source": src, "switches": sw}})
@@ -245,7 +258,7 @@ func runC09(tier string) int {
 				Summary: fmt.Sprintf("origin=%d type=%q parts=%q: %s\n  source: %q\n  output: %q", origin, typ, it.parts, problem, src, res.Out),
 				Replay:  map[string]interface{}{"source": src, "switches": sw, "want_lines": want, "directive": dirName, "output": res.Out, "problem": problem},
 				Recheck: func() bool {
-					r2 := comp.Compile(s2, comp.Opts{FontPath: fpath, Switches: sw2})
+					r2 := comp.Compile(s2, comp.Opts{FontPath: fpath, Switches: sw2, Cmd: c09Cmd})
 					return r2.Out == res.Out
 				},
 			})
@@ -262,5 +275,5 @@ func runC09(tier string) int {
 		"contents whose terminator would straddle two parts are not generated (the property can be read both ways there)",
 		"for format() origins the source lines are the lines of the exported FormatText's result (its content is C07's business)")
 	return r.Finish(r.Get("evaluations"), r.Get("nontrivial"),
-		"every content of total length <= L over {a, é, space, $, \\, 0, n, p, {, }, newline-inside-literal} split into 1-3 literal parts x 3 layouts (same line / one part per line / several comment lines between the parts) x 4 string types x 11 origins (text statement, inline argument, format() of each, poryswitch case selected directly / through '_' / brace form, argument inside an if, after / before a typed inline text in the same command, after typed texts elsewhere); non-trivial = >= 2 parts and a string type")
+		"every content of total length <= L over {a, é, space, $, \\, 0, n, p, {, }, newline-inside-literal} split into 1-3 literal parts x 3 layouts (same line / one part per line / several comment lines between the parts) x 4 string types x 16 origins (argument of an AutoVar command standing first / in the middle / last in &&- and ||-chains of if, while and do...while conditions and as a switch operand, text statement, inline argument, format() of each, poryswitch case selected directly / through '_' / brace form, argument inside an if, after / before a typed inline text in the same command, after typed texts elsewhere); non-trivial = >= 2 parts and a string type")
 }
